@@ -183,11 +183,15 @@ class HistogramCollection(Container[Histogram1D], ObjectWithBinning):
             )
             for item in a_dict["histograms"]
         )
-        return HistogramCollection(*histograms)
+        return HistogramCollection(
+            *histograms, name=a_dict.get("name"), title=a_dict.get("title")
+        )
 
     def to_dict(self) -> Dict[str, Any]:
         return {
             "histogram_type": "histogram_collection",
+            "name": self.name,
+            "title": self.title,
             "histograms": [h.to_dict() for h in self.histograms],
         }
 
